@@ -111,7 +111,7 @@ func W4(depths []int, patterns [][]int, inners []string, sink Sink) {
 
 // W4 standard parameter sets.
 func W4Quick(sink Sink) {
-	W4([]int{9999, 10000, 10001}, NestPatterns[:12], []string{"", "0"}, sink)
+	W4([]int{9999, 10000, 10001, 10003}, NestPatterns[:12], []string{"", "0"}, sink)
 	W4([]int{1, 2, 3, 17, 100}, NestPatterns, NestInner, sink)
 }
 
